@@ -1,7 +1,7 @@
 (* Dispatcher for C19.  Ops 1-3: the complex array ifft2(fft2 img * kernel) of pixel / jitter / smear on the group
    ring Q(i)[C_L] (the case supplies L = lcm(rows, cols)); the values of sinc / gauss come from a table
    (argument, value) supplied by the harness, a missing argument poisons the result.  Op 4: the renormalisation
-   out * sum(img) / sum(out) on the rationals; op 5: the same as executed, [None] when sum(out) = 0 (the all-NaN frame).  The absolute value between the two stages is taken by the harness. *)
+   out * sum(img) / sum(out) on the rationals; op 5: the same as executed: out itself when sum(out) = 0.  The absolute value between the two stages is taken by the harness. *)
 From LV Require Import Lib.Codec Model.Blur Model.BlurEntry.
 Require Import ExtrOcamlBasic.
 
@@ -33,7 +33,7 @@ Definition run (inp : list Z) : list Z :=
       | None => emalformed end
     else if op =? 5 then
       match pall (o <- parrq ;; i <- parrq ;; pret (o, i)) rest0 with
-      | Some (o, i) => 0 :: eopt earrq (renorm_checked (S := QS) (fun q : Qc => qc_eqb q 0%Qc) Qcinv o i)
+      | Some (o, i) => 0 :: earrq (renorm_checked (S := QS) (fun q : Qc => qc_eqb q 0%Qc) Qcinv o i)
       | None => emalformed end
     else
     match rest0 with
